@@ -215,7 +215,7 @@ func corpusC06(maxN, nFlavors int) []cItem {
 		bodies = nil
 	}
 	emit := func(prog []*c6stmt) {
-		if _, ok := c6ref(prog); !ok {
+		if _, ok := c6refAll(prog); !ok { // Main enters every function from every start state
 			return
 		}
 		for fl := 0; fl < nFlavors; fl++ {
